@@ -288,6 +288,24 @@ class ConfigParser(object):
         return value
     self._raise_syntax_error('Unable to parse value.')
 
+  def parse_single_value(self):
+    """Parse a literal value that must be all there is left to parse.
+
+    Returns:
+      The parsed value.
+
+    Raises:
+      SyntaxError: If anything but newlines and comments follows the value.
+    """
+    value = self.parse_value()
+    self._skip([
+        tokenize.NEWLINE, tokenize.NL, tokenize.COMMENT, tokenize.INDENT,
+        tokenize.DEDENT
+    ])
+    if self._current_token.type != tokenize.ENDMARKER:
+      self._raise_syntax_error('Unexpected text after the value.')
+    return value
+
   def _advance_one_token(self):
     self._current_token = next(self._token_generator)
     # Certain symbols (e.g., "$") cause ERRORTOKENs on all preceding space
